@@ -7,6 +7,10 @@ or stubs, each listed as an assumption."""
 import os
 
 from vplib import Job, VERIF, REPO
+
+# example obligations link the whole library (precompiled once per run): a library function the example starts to call is
+# then inlined with its real body instead of being an undefined function
+LIBSRC = ['src/avtp/Utils.c']
 from handjobs2 import hand_tu
 
 ENV_ASSUME = [
@@ -117,7 +121,7 @@ def example_jobs(model, tier, config='le'):
     repl = [g for v in LISTENER_GETTERS.values() for g in v] + ['Avtp_Can_GetPayload', 'recv', 'write', 'memcpy']
     # (a bounded unwinding fallback for this loop was tried - 64-byte datagrams, 5 unwindings - and did not finish in 30 minutes:
     # when the message loop is rewritten so that the loop contract no longer attaches, this obligation ends undecided)
-    jobs.append(Job('examples/acf-can-listener/new_packet', tu.text(), [], enforce='new_packet', replace=repl,
+    jobs.append(Job('examples/acf-can-listener/new_packet', tu.text(), LIBSRC, enforce='new_packet', replace=repl,
                     loop_contracts={'new_packet': [{'template': NP_LOOP, 'symbols': NP_SYMS}]},
                     owners={'post': ['C18'], 'safety': ['C18'], 'assigns': ['C18'], 'loop': ['C18']}, clause_map=dict(tu.tags),
                     function='acf-can-listener.c:new_packet', kind='example', config=config, includes=inc, timeout=1800,
@@ -140,7 +144,7 @@ def example_jobs(model, tier, config='le'):
            '    vp_i = nondet_size(); vp_j = nondet_size(); vp_extra = nondet_size();\n'
            '    vp_wx = 0;   /* slack ghost of the replaced Avtp_Can_Init contract instance */\n'
            '    uint8_t *acf_pdu; frame_t frame;\n    prepare_acf_packet(acf_pdu, frame);\n    VP_CANARY();\n}\n')
-    jobs.append(Job('examples/acf-can-talker/prepare_acf_packet', tu.text(), [], enforce='prepare_acf_packet',
+    jobs.append(Job('examples/acf-can-talker/prepare_acf_packet', tu.text(), LIBSRC, enforce='prepare_acf_packet',
                     replace=['Avtp_Can_Init', 'Avtp_Can_SetField', 'Avtp_Can_CreateAcfMessage', 'Avtp_Can_GetAcfMsgLength', 'clock_gettime'],
                     owners={'post': ['C19'], 'safety': ['C19'], 'assigns': ['C19']}, clause_map=dict(tu.tags),
                     function='acf-can-talker.c:prepare_acf_packet', kind='example', config=config, includes=inc, timeout=1800,
